@@ -161,6 +161,7 @@ def plan_C01(tier, rng):
             fp = samp(rng, fp, 250)
         inputs += [(s, t, F) for (s, t) in fp]
         inputs += [(s, t, F) for (s, t) in gens.edge_inputs(F, rng)]
+        inputs += [(s, t, F) for (s, t) in gens.underflow_boundary(F, 10, 10, 10, "e")]
         inputs += [(s, t, F) for (s, t) in gens.random_decimal(rng, 400 if quick else 6000)]
         inputs += [(s, t, F) for (s, t) in gens.random_long_decimal(rng, 10 if quick else 150)]
         inputs += [(s, t, F) for (s, t) in gens.sticky_placement_inputs(F, rng, (2 if F is F64 else 4) if quick else 30)]
@@ -392,6 +393,24 @@ def plan_C04(tier, rng):
         ty = rng.choice(list(gens.INT_TYPES))
         cs.parse(ep, ty, 0, data, [rng.choice(cfgs)], std=True, tag="random-bytes")
         cs.parse(ep, ty, 0, data, [rng.choice(cfgs)], partial=True)
+    # digit classification is exhaustive over bytes: every byte value between two digits and after a sign, every radix
+    # (S-C04-b: control bytes 0x10..0x19 folded onto '0'..'9' by a case-folding shortcut)
+    for r in range(2, 37):
+        rc = radix_cfgs(r, cfgs)
+        if not rc:
+            continue
+        f = radix_fmt(r) if r != 10 else 0
+        ty = ["u32", "i64", "u8", "i16", "u128"][r % 5]
+        ep = cs.new_ep()
+        for b in range(256):
+            if b % 32 == 0:
+                ep = cs.new_ep()
+            c = [rc[b % len(rc)]]
+            cs.parse(ep, ty, f, [49, b, 49], c, wo=(r != 10), tag="every-byte")
+            if b % 2:
+                cs.parse(ep, ty, f, [49, b, 49], c, wo=(r != 10), partial=True)
+            else:
+                cs.parse(ep, ty, f, [b, 49], c, wo=(r != 10))
     models = [("MC_BigNat.tla", "MC_BigNat.cfg", 4, 600), ("MC_IntParse.tla", "MC_IntParse.cfg" if quick else "MC_IntParse_thorough.cfg", 8, 1800)]
     return cs, models, {"input_families": cs.tags, "configurations": cfgs}
 
@@ -422,6 +441,18 @@ def plan_C05(tier, rng):
                 cs.parse(ep, F["name"], f, s, rc, wo=True, opts=o, tag=tag)
                 if i % 3 == 0:
                     cs.parse(ep, F["name"], f, s, [rc[i % len(rc)]], wo=True, opts=o, partial=True)
+    # digit classification, every byte value in a mantissa and in an exponent position (a byte that is wrongly taken for
+    # a digit changes the value or the acceptance)
+    for r in ([3, 11, 16, 36] if quick else [x for x in range(2, 37) if x != 10]):
+        rc = radix_cfgs(r, cfgs)
+        f = radix_fmt(r)
+        ec = exp_char(r)
+        for b in range(256):
+            if b % 32 == 0:
+                ep = cs.new_ep()
+            c = [rc[b % len(rc)]]
+            cs.parse(ep, "f64", f, [49, b, 49], c, wo=True, opts=pf(exp=ec), tag="every-byte")
+            cs.parse(ep, "f64", f, [49, ec, 49, b], c, wo=True, opts=pf(exp=ec), partial=(b % 2 == 1))
     for (r, b) in MIXED:
         for xr in (10, b, r):
             f = fmt_id("mixed%d_%d_x%d" % (r, b, xr))
@@ -452,6 +483,7 @@ def decimal_float_corpus(rng, n_half, n_rand, longs=4):
         out += [(s, F) for (s, t) in gens.lemire_row_inputs(F, rng, samp(rng, range(-300, 300) if F is F64 else range(-40, 38), max(4, n_half // 3)), per=1)]
         out += [(s, F) for (s, t) in samp(rng, gens.fastpath_boundary(F, rng), max(10, n_half // 2))]
         out += [(s, F) for (s, t) in gens.edge_inputs(F, rng)]
+        out += [(s, F) for (s, t) in gens.underflow_boundary(F, 10, 10, 10, "e")]
         out += [(s, F) for (s, t) in gens.random_decimal(rng, n_rand)]
         out += [(s, F) for (s, t) in gens.random_long_decimal(rng, longs)]
     return out
@@ -1579,6 +1611,17 @@ def plan_C18(tier, rng):
                 ep = cs.new_ep()
                 for partial in (False, True):
                     cs.parse(ep, "f64", fid, s_, RF, wo=True, opts=pf(exp=e_, point=p_), partial=partial, tag="parse-invalid-punctuation")
+    # punctuation that collides with one character of the format: exponent or decimal point equal to the base prefix, the
+    # base suffix or the digit separator, each collision on its own (S-C18-b: suffix = exponent character was let through)
+    for fname in ("syn_prefix_x", "syn_suffix_h", "syn_prefix_suffix", "syn_hex_prefix", "sep_all_i", "sep_apostrophe", "syn_suffix_h_cs"):
+        f_ = F[fmt_id(fname)]
+        chars = sorted({a_ for (n_, a_) in f_["calls"] if n_ in ("base_prefix", "base_suffix", "digit_separator")})
+        for ch in chars:
+            for (e_, p_) in ((ch, 46), (101 if fname != "syn_hex_prefix" else 112, ch), (ch, 44)):
+                for s_ in ("1", "1.5", "12" + chr(ch) + "5", ""):
+                    ep = cs.new_ep()
+                    for partial in (False, True):
+                        cs.parse(ep, "f64", f_["id"], s_, RF, wo=True, opts=pf(exp=e_, point=p_), partial=partial, tag="parse-punctuation-collides-with-format")
     # option builders
     ep = cs.new_ep()
     strs = [None, "NaN", "nan", "n", "N", "Nan1", "na n", "xan", "", "n" * 50, "n" * 51, "inf", "i", "Infinity", "infinity", "in", "i" * 50,
